@@ -1,0 +1,63 @@
+//go:build verif
+
+package kfake
+
+// This file exists only in builds with the `verif` tag. It lets an external
+// verification harness run the server-side assignors on generated inputs.
+// Nothing here changes broker behavior.
+
+// VerifAssignMember is one KIP-848 consumer group member as seen by
+// computeTargetAssignment.
+type VerifAssignMember struct {
+	ID         string
+	InstanceID *string
+	Away       bool // memberEpoch == -2 (static leave)
+	Subs       []string
+	Target     map[[16]byte][]int32 // prior target assignment
+}
+
+// VerifTopic is one entry of the topic metadata snapshot.
+type VerifTopic struct {
+	ID         [16]byte
+	Partitions int32
+}
+
+// VerifComputeTarget builds a group with the given members, runs
+// computeTargetAssignment (which dispatches to assignUniform or assignRange)
+// and returns every member's resulting target assignment.
+func VerifComputeTarget(assignor string, members []VerifAssignMember, topics map[string]VerifTopic) map[string]map[[16]byte][]int32 {
+	g := &group{
+		assignorName:    assignor,
+		consumerMembers: make(map[string]*consumerMember, len(members)),
+		partitionEpochs: make(map[uuid]map[int32]int32),
+	}
+	for _, vm := range members {
+		m := &consumerMember{
+			memberID:         vm.ID,
+			instanceID:       vm.InstanceID,
+			subscribedTopics: vm.Subs,
+			targetAssignment: make(map[uuid][]int32, len(vm.Target)),
+		}
+		if vm.Away {
+			m.memberEpoch = -2
+		}
+		for id, ps := range vm.Target {
+			m.targetAssignment[uuid(id)] = append([]int32(nil), ps...)
+		}
+		g.consumerMembers[vm.ID] = m
+	}
+	snap := make(topicMetaSnap, len(topics))
+	for t, vt := range topics {
+		snap[t] = topicSnapInfo{id: uuid(vt.ID), partitions: vt.Partitions}
+	}
+	g.computeTargetAssignment(snap)
+	out := make(map[string]map[[16]byte][]int32, len(members))
+	for mid, m := range g.consumerMembers {
+		o := make(map[[16]byte][]int32, len(m.targetAssignment))
+		for id, ps := range m.targetAssignment {
+			o[[16]byte(id)] = append([]int32(nil), ps...)
+		}
+		out[mid] = o
+	}
+	return out
+}
